@@ -246,6 +246,7 @@ static inline void myth_tls_key_allocator_init(myth_tls_key_allocator_t * s) {
   }
   s->keys[myth_tls_n_keys - 1].next = 0;
   s->free = &s->keys[0];
+  myth_spin_init_body(&s->lock);
 }
 
 static inline void myth_tls_key_allocator_fini(myth_tls_key_allocator_t * s) {
@@ -265,23 +266,21 @@ static inline void myth_tls_fini() {
 static inline int
 myth_tls_key_allocator_alloc(myth_tls_key_allocator_t * s,
 			     myth_tls_destructor_fun_t destructor) {
-  while (1) {
-    /* try to pull the element from the free list */
-    myth_tls_key_entry_t * ke = s->free;
-    if (ke) {
-      myth_tls_key_entry_t * next = ke->next;
-      MYTH_VERIF_POINT(MVP_KEY_ALLOC_A);
-      if (__sync_bool_compare_and_swap(&s->free, ke, next)) {
-	MYTH_VERIF_POINT(MVP_KEY_ALLOC_B);
-	/* mark the key as used */
-	ke->next = (myth_tls_key_entry_t *)-1;
-	ke->destructor = destructor;
-	return ke - s->keys;
-      }
-    } else {
-      return -1;
-    }
+  /* the free list is a plain LIFO list; a lock-free pop with a
+     compare-and-swap on the head suffers from the ABA problem
+     (create preempted; another thread creates two keys and deletes
+     the first: the stale next pointer hands out a live key), so
+     creation and deletion are serialized by a spin lock */
+  myth_spin_lock_body(&s->lock);
+  myth_tls_key_entry_t * ke = s->free;
+  if (ke) {
+    s->free = ke->next;
+    /* mark the key as used */
+    ke->next = (myth_tls_key_entry_t *)-1;
+    ke->destructor = destructor;
   }
+  myth_spin_unlock_body(&s->lock);
+  return (ke ? ke - s->keys : -1);
 }
 
 /* deallocate a key */
@@ -291,20 +290,18 @@ myth_tls_key_allocator_dealloc(myth_tls_key_allocator_t * s, int key) {
     return (myth_tls_destructor_fun_t)-1;
   }
   myth_tls_key_entry_t * ke = &s->keys[key];
+  myth_spin_lock_body(&s->lock);
   /* make sure the key is being used */
   if (ke->next != (myth_tls_key_entry_t *)-1) {
+    myth_spin_unlock_body(&s->lock);
     return (myth_tls_destructor_fun_t)-1;
   }
   myth_tls_destructor_fun_t f = ke->destructor;
-  while (1) {
-    /* try to push the cell to the free list */
-    myth_tls_key_entry_t * head = s->free;
-    ke->next = head;
-    MYTH_VERIF_POINT(MVP_KEY_FREE_A);
-    if (__sync_bool_compare_and_swap(&s->free, head, ke)) {
-      return f;
-    }
-  }
+  /* push the cell to the free list */
+  ke->next = s->free;
+  s->free = ke;
+  myth_spin_unlock_body(&s->lock);
+  return f;
 }
 
 static inline int myth_key_create_body(myth_key_t * key,
